@@ -209,8 +209,10 @@ nested to any depth), every field-parameter record, every dialect and every inpu
 in the form `Marshal` itself produces for the type — then marshalling the decoded value gives back exactly the octets that were
 consumed, and what was not consumed is the remainder. (`Canon` has no `interface{}` targets: for those the premise is never true.)
 
-That `canon` mode accepts exactly the inputs on which the real `Marshal(Unmarshal(x))` reproduces `x` is checked against the fork on
-every run (the `c` lines of the harness: 0 disagreements over 10⁴ quick / 10⁶ thorough inputs). -/
+`Canon` is sufficient, not necessary: an input can round-trip exactly without being canonical when the octets a present-but-omitted
+field loses are written back by a neighbouring field (`30 02 12 00` into `{optional str; optional,default str}`, found by the thorough
+tier). The `c` lines of the harness check on every run that the real `Marshal(Unmarshal(x))` reproduces `x` exactly when `canon` accepts
+or the model's own `marshalField ∘ parseField .strict` reproduces it (0 disagreements over 10⁴ quick / 10⁶ thorough inputs). -/
 theorem marshal_parse (d : Dialect) (t : ATy) (p : FP) (bs : Bytes) (v : AVal) (rest : Bytes)
     (h : parseField d .canon t p bs = .ok (v, rest)) :
     ∃ enc, marshalField d t p v = .ok enc ∧ bs = enc ++ rest :=
